@@ -47,7 +47,7 @@ CLAIMS = {
         "note": TRUST + " Reference tables come from tools/cldr_ref.py (own JSON -> integer packer); C18 decides the compiled tables equal them.",
     },
     "C07": {
-        "text": "Purely algebraic laws of the real maximize on every valid (script?, region?) with an undetermined language and with the concrete languages zh and qaa: given subtags kept (an unknown language is never replaced by a table language), all three present afterwards, bool <=> found, false => unchanged, variants untouched.",
+        "text": "Purely algebraic laws of the real maximize on every valid (script?, region?) with an undetermined language and with the concrete languages zh and qaa (quick), and on every valid (language, script?, region?) plus the fixed-point clause (thorough): given subtags kept (an unknown language is never replaced by a table language), all three present afterwards, bool <=> found, false => unchanged, variants untouched.",
         "note": TRUST,
     },
     "C08": {
